@@ -927,6 +927,8 @@ func (rn *runner) runSeq(sq *seqSpec) seqResult {
 	c.Op(fmt.Sprintf("new %d %s", sq.MaxBuf, walS), "ok")
 	var accepted []accReq
 	touched := map[string]bool{} // db/meas keys that received rows from a request WITHOUT expectation
+	uTypes := map[string]string{} // key|_column -> Go slice type of the batches appended so far
+	uConflict := false
 	dead := false
 	canon := []string{fmt.Sprintf("mb=%d wal=%s", sq.MaxBuf, walS)}
 	for i := range sq.Reqs {
@@ -959,6 +961,24 @@ func (rn *runner) runSeq(sq *seqSpec) seqResult {
 		uneven := ingest.VerifC04TakeUneven()
 		ws := groupTrace(ingest.VerifC04TakeTrace())
 		ep := modelEp(r.Ep)
+		for _, w := range ws {
+			var cols []ingest.VerifC04Col
+			switch {
+			case w.c != nil:
+				cols = w.c.Cols
+			case w.t != nil:
+				cols = w.t.Cols
+			}
+			for _, cdef := range cols {
+				if len(cdef.Name) > 0 && cdef.Name[0] == '_' {
+					k := o.db + "/" + w.meas() + "|" + cdef.Name
+					if t, seen := uTypes[k]; seen && t != cdef.Ty {
+						uConflict = true
+					}
+					uTypes[k] = cdef.Ty
+				}
+			}
+		}
 		if (r.Ep == "csv" || r.Ep == "parquet") && len(ws) == 0 && code >= 400 && api.VerifC04ValidDB(o.db) && api.VerifC04ValidMeas(r.Query["measurement"]) {
 			o.pre = fmt.Sprint(code)
 		}
@@ -1024,13 +1044,24 @@ func (rn *runner) runSeq(sq *seqSpec) seqResult {
 		if rpSite != "" {
 			res.suspicious = true
 			res.reqPanic = rpSite
-			conseq := "rows of earlier, acknowledged requests that had been extracted from the buffer for the synchronous flush are dropped"
-			if !modelSite(rpSite) {
-				conseq = "the panic is inside library code reached from the handler (outside the model: found by search)"
+			if modelSite(rpSite) {
+				c.Fail("panic:request-goroutine:"+rpSite,
+					fmt.Sprintf("%s handler panicked on the request goroutine (%s); fiber's recover middleware answered %d; rows of earlier, acknowledged requests that had been extracted from the buffer for the synchronous flush are dropped", r.Ep, rpMsg, code),
+					rn.minimalReplay(sq, i, "rp:"+rpSite))
+			} else {
+				// a panic inside library code reached from the handler (msgpack fork, arrow-go Parquet reader):
+				// the middleware answers 500, the process survives, nothing is stored - not a violation of C04;
+				// recorded as a note (histogram + extra), search only
+				c.Tag("note:request-goroutine-panic-recovered:" + rpSite)
+				if notes, _ := c.Extra["library_panics"].(map[string]string); notes != nil {
+					if _, seen := notes[rpSite]; !seen {
+						notes[rpSite] = fmt.Sprintf("%s: %s -> %d; replay: %s", r.Ep, rpMsg, code, r.replayLine())
+					}
+				}
+				if added > 0 {
+					c.Fail("rejected-request-stored-rows:"+ep+":after-library-panic", fmt.Sprintf("handler panicked in library code (%s) after %d rows had been buffered", rpMsg, added), rn.prefixReplay(sq, i))
+				}
 			}
-			c.Fail("panic:request-goroutine:"+rpSite,
-				fmt.Sprintf("%s handler panicked on the request goroutine (%s); fiber's recover middleware answered %d; %s", r.Ep, rpMsg, code, conseq),
-				rn.minimalReplay(sq, i, "rp:"+rpSite))
 		}
 		if fpSite != "" {
 			res.suspicious = true
@@ -1074,7 +1105,18 @@ func (rn *runner) runSeq(sq *seqSpec) seqResult {
 		default:
 			st, bf := srv.stat("total_records_written"), srv.stat("total_records_buffered")
 			c.Op("fin", fmt.Sprintf("stored=%d appended=%d", st, bf))
-			rn.checkStored(srv, sq, accepted, touched)
+			if bf > st {
+				key := "rows-lost:flush-error"
+				why := "a flush returned an error"
+				if uConflict {
+					key = "rows-lost:underscore-column-type-conflict:flush-error"
+					why = "a `_`-prefixed column changed its type between requests; getColumnSignature ignores such columns, the batches shared a buffer and mergeBatches returned an error"
+				}
+				c.Fail(key, fmt.Sprintf("%d rows were appended to buffers (their requests were answered 2xx) but only %d were written to storage: %s; the rows are dropped (with the WAL off they exist nowhere)", bf, st, why), sq.replayText())
+			}
+			if bf <= st { // with rows lost by a flush error (reported above) the files are incomplete by definition
+				rn.checkStored(srv, sq, accepted, touched)
+			}
 		}
 	}
 	c.Case(strings.Join(canon, "|"), len(sq.Reqs) > 1 || res.suspicious)
@@ -1415,6 +1457,7 @@ func main() {
 		panic(err)
 	}
 	rn := &runner{c: c, exe: exe, confirmed: map[string]bool{}}
+	c.Extra["library_panics"] = map[string]string{}
 	r := vh.NewRand(c.Seed)
 	nRandom, childEvery := 200, 50
 	if c.Thorough() {
